@@ -1,15 +1,36 @@
-(* Proofs about the txtar model (Txtar.v).  Property theorems are re-exported,
-   unchanged, by Properties/C03.v and Properties/C14.v. *)
+(* Proofs about the txtar model (Txtar.v), part 1: marker lines, collect, and the
+   Parse/Format theorems of C03.  The quoting theorems of C14 are in QuoteFacts.v.
+   Property theorems are re-exported, unchanged, by Properties/C03.v and C14.v. *)
 From Coq Require Import List Bool Arith Lia.
 From Coq.Strings Require Import Byte.
-From GI Require Import Lib.Bytes Gen.TxtarConsts Txtar.Txtar.
+From GI Require Import Lib.Bytes Lib.BytesFacts Gen.TxtarConsts Txtar.Txtar.
 Import ListNotations.
 
-Lemma beq_refl b : beq b b = true.
-Proof. unfold beq. apply Byte.byte_dec_lb. reflexivity. Qed.
+(* ------------------------------------------------------------------ *)
+(* the facts about the regenerated constants that the proofs rely on   *)
+(* (re-checked by computation whenever Gen/TxtarConsts.v changes)      *)
 
-Lemma beq_eq a b : beq a b = true -> a = b.
-Proof. unfold beq. apply Byte.byte_dec_bl. Qed.
+Lemma marker_no_nl : ~ In NL marker.
+Proof. apply mem_byte_false. reflexivity. Qed.
+
+Lemma marker_end_no_nl : ~ In NL marker_end.
+Proof. apply mem_byte_false. reflexivity. Qed.
+
+Lemma marker_end_nonempty : marker_end <> [].
+Proof. discriminate. Qed.
+
+Lemma marker_end_last_not_cr : last_byte marker_end <> Some CR.
+Proof. cbv. discriminate. Qed.
+
+(* '>' is not the first byte of the marker *)
+Lemma marker_not_gt l : has_prefix marker (x3e :: l) = false.
+Proof. reflexivity. Qed.
+
+Lemma marker_prefix_nonempty : has_prefix marker [] = false.
+Proof. reflexivity. Qed.
+
+(* ------------------------------------------------------------------ *)
+(* line terminators                                                    *)
 
 Lemma strip_nl_snoc l : strip_nl (l ++ [NL]) = l.
 Proof. unfold strip_nl. rewrite rev_app_distr. simpl. rewrite rev_involutive. reflexivity. Qed.
@@ -17,15 +38,490 @@ Proof. unfold strip_nl. rewrite rev_app_distr. simpl. rewrite rev_involutive. re
 Lemma strip_cr_snoc l : strip_cr (l ++ [CR]) = l.
 Proof. unfold strip_cr. rewrite rev_app_distr. simpl. rewrite rev_involutive. reflexivity. Qed.
 
-(* a marker line ending in CRLF is recognised exactly like one ending in LF *)
+Lemma strip_nl_id l : last_byte l <> Some NL -> strip_nl l = l.
+Proof.
+  unfold strip_nl, last_byte. intros H. destruct (rev l) as [|b r]; [reflexivity|].
+  destruct (beq b NL) eqn:E; [|reflexivity]. apply beq_eq in E. subst b. now contradiction H.
+Qed.
+
+Lemma strip_cr_id l : last_byte l <> Some CR -> strip_cr l = l.
+Proof.
+  unfold strip_cr, last_byte. intros H. destruct (rev l) as [|b r]; [reflexivity|].
+  destruct (beq b CR) eqn:E; [|reflexivity]. apply beq_eq in E. subst b. now contradiction H.
+Qed.
+
+Lemma strip_nl_prefix l : exists s, l = strip_nl l ++ s.
+Proof.
+  unfold strip_nl. destruct (rev l) as [|b r] eqn:E.
+  - exists []. now rewrite app_nil_r.
+  - destruct (beq b NL).
+    + exists [b]. rewrite <- (rev_involutive l), E. reflexivity.
+    + exists []. now rewrite app_nil_r.
+Qed.
+
+Lemma strip_cr_prefix l : exists s, l = strip_cr l ++ s.
+Proof.
+  unfold strip_cr. destruct (rev l) as [|b r] eqn:E.
+  - exists []. now rewrite app_nil_r.
+  - destruct (beq b CR).
+    + exists [b]. rewrite <- (rev_involutive l), E. reflexivity.
+    + exists []. now rewrite app_nil_r.
+Qed.
+
+Lemma strip_cr_incl l : incl (strip_cr l) l.
+Proof. destruct (strip_cr_prefix l) as [s H]. intros x Hx. rewrite H. apply in_or_app. now left. Qed.
+
+Lemma strip_nl_incl l : incl (strip_nl l) l.
+Proof. destruct (strip_nl_prefix l) as [s H]. intros x Hx. rewrite H. apply in_or_app. now left. Qed.
+
+(* the line with its terminator removed has no NL *)
+Lemma strip_nl_line_no_nl l : is_line l -> ~ In NL (strip_nl l).
+Proof.
+  intros [[l0 H0]|[Hne Hnl]].
+  - now rewrite strip_nl_snoc.
+  - intros H. apply Hnl. now apply strip_nl_incl.
+Qed.
+
+(* ------------------------------------------------------------------ *)
+(* marker lines                                                        *)
+
+Lemma In_firstn {A} k (l : list A) x : In x (firstn k l) -> In x l.
+Proof. intros H. rewrite <- (firstn_skipn k l). apply in_or_app. now left. Qed.
+
+Lemma In_skipn {A} k (l : list A) x : In x (skipn k l) -> In x l.
+Proof. intros H. rewrite <- (firstn_skipn k l). apply in_or_app. now right. Qed.
+
+Lemma marker_core_Some l n :
+  marker_core l = Some n ->
+  has_prefix marker l = true /\ n <> [] /\ trim_space n = n /\ incl n l.
+Proof.
+  unfold marker_core.
+  destruct (has_prefix marker l && has_suffix marker_end l
+            && Nat.leb (length marker + length marker_end) (length l)) eqn:C; [|discriminate].
+  apply andb_true_iff in C. destruct C as [C _].
+  apply andb_true_iff in C. destruct C as [C _].
+  cbv zeta.
+  set (mid := firstn (length l - length marker - length marker_end) (skipn (length marker) l)).
+  destruct (trim_space mid) as [|b t] eqn:E; [discriminate|].
+  intros H. injection H as <-. rewrite <- E.
+  split; [exact C|]. split; [rewrite E; discriminate|]. split; [apply trim_space_idem|].
+  intros x Hx. apply trim_space_incl in Hx. unfold mid in Hx.
+  apply In_firstn in Hx. now apply In_skipn in Hx.
+Qed.
+
+Lemma marker_line_has_prefix l n : marker_line l = Some n -> has_prefix marker l = true.
+Proof.
+  unfold marker_line. intros H. apply marker_core_Some in H. destruct H as [H _].
+  destruct (strip_nl_prefix l) as [s1 H1]. destruct (strip_cr_prefix (strip_nl l)) as [s2 H2].
+  rewrite H1, H2, <- app_assoc. now apply has_prefix_app_mono.
+Qed.
+
+(* a terminator-less last line is classified as if it were terminated *)
+Lemma marker_line_snoc_nl u : last_byte u <> Some NL -> marker_line (u ++ [NL]) = marker_line u.
+Proof. intros H. unfold marker_line. now rewrite strip_nl_snoc, strip_nl_id. Qed.
+
+(* a line starting with '>' is never a marker line *)
+Lemma marker_line_gt l : marker_line (x3e :: l) = None.
+Proof.
+  destruct (marker_line (x3e :: l)) as [n|] eqn:E; [|reflexivity].
+  apply marker_line_has_prefix in E. rewrite marker_not_gt in E. discriminate.
+Qed.
+
+(* C03, "a marker line ending in CRLF is recognised exactly like one ending in LF" *)
 Lemma marker_line_crlf l :
   last_byte l <> Some CR ->
   marker_line (l ++ [CR; NL]) = marker_line (l ++ [NL]).
 Proof.
   intros Hl. unfold marker_line.
   change (l ++ [CR; NL]) with (l ++ [CR] ++ [NL]). rewrite app_assoc.
-  rewrite !strip_nl_snoc, strip_cr_snoc.
-  unfold strip_cr, last_byte in *. destruct (rev l) as [|b r] eqn:E; [reflexivity|].
-  destruct (beq b CR) eqn:Eb; [|reflexivity].
-  apply beq_eq in Eb. subst b. congruence.
+  rewrite !strip_nl_snoc, strip_cr_snoc. now rewrite strip_cr_id.
+Qed.
+
+Lemma wf_name_iff n :
+  wf_name n = true <-> n <> [] /\ trim_space n = n /\ ~ In NL n.
+Proof.
+  unfold wf_name. rewrite !andb_true_iff, bytes_eqb_eq, negb_true_iff, mem_byte_false.
+  destruct n; intuition congruence.
+Qed.
+
+(* every name the parser produces is well formed *)
+Lemma marker_line_wf_name l n : is_line l -> marker_line l = Some n -> wf_name n = true.
+Proof.
+  intros Hl H. unfold marker_line in H. apply marker_core_Some in H.
+  destruct H as [_ [Hne [Htrim Hincl]]]. apply wf_name_iff. repeat split; try assumption.
+  intros Hin. apply (strip_nl_line_no_nl l Hl). apply strip_cr_incl. now apply Hincl.
+Qed.
+
+Lemma format_marker_eq n : format_marker n = (marker ++ n ++ marker_end) ++ [NL].
+Proof. unfold format_marker. now rewrite <- !app_assoc. Qed.
+
+Lemma marker_core_format n :
+  n <> [] -> trim_space n = n -> marker_core (marker ++ n ++ marker_end) = Some n.
+Proof.
+  intros Hne Htrim. unfold marker_core. cbv zeta.
+  set (L := marker ++ n ++ marker_end).
+  assert (HP : has_prefix marker L = true) by apply has_prefix_app.
+  assert (HS : has_suffix marker_end L = true).
+  { apply has_suffix_iff. exists (marker ++ n). unfold L. now rewrite app_assoc. }
+  assert (HL : Nat.leb (length marker + length marker_end) (length L) = true).
+  { apply Nat.leb_le. unfold L. rewrite !app_length. lia. }
+  assert (HM : firstn (length L - length marker - length marker_end) (skipn (length marker) L) = n).
+  { unfold L. rewrite skipn_length_app.
+    replace (length (marker ++ n ++ marker_end) - length marker - length marker_end)
+      with (length n) by (rewrite !app_length; lia).
+    apply firstn_length_app. }
+  rewrite HP, HS, HL, HM. cbn [andb]. rewrite Htrim. destruct n; congruence.
+Qed.
+
+(* what Format writes for a well-formed name is read back as that name *)
+Lemma marker_line_format_marker n : wf_name n = true -> marker_line (format_marker n) = Some n.
+Proof.
+  intros H. apply wf_name_iff in H. destruct H as [Hne [Htrim Hnl]].
+  unfold marker_line. rewrite format_marker_eq, strip_nl_snoc.
+  rewrite strip_cr_id.
+  - now apply marker_core_format.
+  - rewrite app_assoc, last_byte_app by apply marker_end_nonempty. apply marker_end_last_not_cr.
+Qed.
+
+Lemma format_marker_tline n : ~ In NL n -> tline (format_marker n).
+Proof.
+  intros H. rewrite format_marker_eq. constructor.
+  intros Hin. apply in_app_or in Hin. destruct Hin as [Hin|Hin]; [now apply marker_no_nl|].
+  apply in_app_or in Hin. destruct Hin as [Hin|Hin]; [now apply H|now apply marker_end_no_nl].
+Qed.
+
+(* ------------------------------------------------------------------ *)
+(* collect                                                             *)
+
+Lemma collect_cons_mark ml m n rest :
+  ml m = Some n ->
+  collect ml (m :: rest) = ([], (n, fst (collect ml rest)) :: snd (collect ml rest)).
+Proof. intros H. cbn [collect]. destruct (collect ml rest) as [c fs]. now rewrite H. Qed.
+
+Lemma collect_cons_nomark ml m rest :
+  ml m = None ->
+  collect ml (m :: rest) = (m ++ fst (collect ml rest), snd (collect ml rest)).
+Proof. intros H. cbn [collect]. destruct (collect ml rest) as [c fs]. now rewrite H. Qed.
+
+Lemma collect_app_nomark ml ls rest :
+  (forall l, In l ls -> ml l = None) ->
+  collect ml (ls ++ rest) = (concat ls ++ fst (collect ml rest), snd (collect ml rest)).
+Proof.
+  induction ls as [|l ls IH]; intros H.
+  - cbn [app concat]. now destruct (collect ml rest).
+  - cbn [app concat]. rewrite collect_cons_nomark by (apply H; now left).
+    rewrite IH by (intros x Hx; apply H; now right). cbn [fst snd]. now rewrite app_assoc.
+Qed.
+
+Lemma collect_nomark ml ls :
+  (forall l, In l ls -> ml l = None) -> collect ml ls = (concat ls, []).
+Proof.
+  intros H. rewrite <- (app_nil_r ls) at 1. rewrite collect_app_nomark by assumption.
+  cbn [collect fst snd]. now rewrite app_nil_r.
+Qed.
+
+Lemma collect_ext ml ml' ls :
+  (forall l, In l ls -> ml l = ml' l) -> collect ml ls = collect ml' ls.
+Proof.
+  induction ls as [|l ls IH]; intros H; [reflexivity|].
+  cbn [collect]. rewrite IH by (intros x Hx; apply H; now right).
+  rewrite (H l) by now left. reflexivity.
+Qed.
+
+Lemma collect_files_nil ml ls :
+  snd (collect ml ls) = [] -> forall l, In l ls -> ml l = None.
+Proof.
+  induction ls as [|x ls IH]; intros H l Hin; [destruct Hin|].
+  destruct (ml x) as [n|] eqn:E.
+  - rewrite (collect_cons_mark ml x n ls E) in H. discriminate.
+  - rewrite (collect_cons_nomark ml x ls E) in H. cbn [snd] in H.
+    destruct Hin as [<-|Hin]; [assumption|now apply IH].
+Qed.
+
+Lemma parse_with_eq ml d :
+  parse_with ml d =
+  {| comment := fix_nl (fst (collect ml (split_lines d)));
+     files := map (fun nd => (fst nd, fix_nl (snd nd))) (snd (collect ml (split_lines d))) |}.
+Proof. unfold parse_with. now destruct (collect ml (split_lines d)). Qed.
+
+(* ------------------------------------------------------------------ *)
+(* needs_quote                                                         *)
+
+Definition is_marker (l : bytes) : bool :=
+  match marker_line l with Some _ => true | None => false end.
+
+Lemma needs_quote_eq d : needs_quote d = existsb is_marker (split_lines d).
+Proof. reflexivity. Qed.
+
+Lemma needs_quote_false_iff d :
+  needs_quote d = false <-> forall l, In l (split_lines d) -> marker_line l = None.
+Proof.
+  rewrite needs_quote_eq. split.
+  - intros H l Hin. destruct (marker_line l) as [n|] eqn:E; [|reflexivity].
+    assert (Ht : existsb is_marker (split_lines d) = true).
+    { apply existsb_exists. exists l. split; [assumption|]. unfold is_marker. now rewrite E. }
+    congruence.
+  - intros H. destruct (existsb is_marker (split_lines d)) eqn:E; [|reflexivity].
+    apply existsb_exists in E. destruct E as [l [Hin Hl]]. unfold is_marker in Hl.
+    now rewrite (H l Hin) in Hl.
+Qed.
+
+(* NeedsQuote is true exactly when some line of the text is a marker line *)
+Lemma needs_quote_exact d :
+  needs_quote d = true <-> exists l n, In l (split_lines d) /\ marker_line l = Some n.
+Proof.
+  rewrite needs_quote_eq, existsb_exists. unfold is_marker. split.
+  - intros [l [Hin Hl]]. destruct (marker_line l) as [n|] eqn:E; [|discriminate]. now exists l, n.
+  - intros [l [n [Hin Hl]]]. exists l. now rewrite Hl.
+Qed.
+
+Lemma needs_quote_nil : needs_quote [] = false.
+Proof. reflexivity. Qed.
+
+(* ... "whether or not the body ends in a newline" *)
+Lemma needs_quote_fix_nl d : needs_quote (fix_nl d) = needs_quote d.
+Proof.
+  destruct (fix_nl_cases d) as [[Hd H]|[[_ H]|[Hne [Hl H]]]]; rewrite H.
+  - now subst.
+  - reflexivity.
+  - destruct (split_lines_snoc_nl d Hne Hl) as [ls [u [H1 [H2 Hu]]]].
+    rewrite !needs_quote_eq, H1, H2, !existsb_app. f_equal. cbn [existsb]. f_equal.
+    unfold is_marker. rewrite marker_line_snoc_nl; [reflexivity|]. now apply uline_last.
+Qed.
+
+Lemma wf_text_iff t :
+  wf_text t = true <-> fix_nl t = t /\ needs_quote t = false.
+Proof. unfold wf_text. now rewrite andb_true_iff, bytes_eqb_eq, negb_true_iff. Qed.
+
+(* ------------------------------------------------------------------ *)
+(* C03 (3), (4), (7): what Parse returns is a well-formed archive       *)
+
+Lemma collect_inv ls :
+  lines_ok ls ->
+  needs_quote (fst (collect marker_line ls)) = false /\
+  Forall (fun nd => wf_name (fst nd) = true /\ needs_quote (snd nd) = false)
+         (snd (collect marker_line ls)).
+Proof.
+  induction ls as [|l rest IH]; intros Hok.
+  - split; [reflexivity|constructor].
+  - assert (Hline : is_line l) by (now apply lines_ok_inv in Hok).
+    assert (Hrest : lines_ok rest) by (now apply lines_ok_inv in Hok).
+    destruct (IH Hrest) as [IHc IHf].
+    destruct (marker_line l) as [n|] eqn:E.
+    + rewrite (collect_cons_mark _ l n rest E). cbn [fst snd]. split; [reflexivity|].
+      constructor; [|assumption]. cbn [fst snd]. split; [|assumption].
+      now apply (marker_line_wf_name l).
+    + rewrite (collect_cons_nomark _ l rest E). cbn [fst snd]. split; [|assumption].
+      destruct rest as [|l2 rest'].
+      * cbn [collect fst]. rewrite app_nil_r, needs_quote_eq, split_lines_line by assumption.
+        cbn [existsb]. unfold is_marker. now rewrite E.
+      * apply lines_ok_inv2 in Hok. destruct Hok as [Ht _].
+        rewrite needs_quote_eq, split_lines_app by (right; now apply tline_last).
+        rewrite split_lines_tline by assumption. cbn [app existsb].
+        unfold is_marker at 1. rewrite E. cbn [orb]. exact IHc.
+Qed.
+
+Lemma parse_names_wf s :
+  Forall (fun nd => wf_name (fst nd) = true) (files (parse s)).
+Proof.
+  unfold parse. rewrite parse_with_eq. cbn [files]. apply Forall_map. cbn [fst].
+  destruct (collect_inv (split_lines s) (split_lines_ok s)) as [_ H].
+  eapply Forall_impl; [|exact H]. cbn beta. intros a [Ha _]. exact Ha.
+Qed.
+
+Lemma parse_data_nl s :
+  fix_nl (comment (parse s)) = comment (parse s) /\
+  Forall (fun nd => fix_nl (snd nd) = snd nd) (files (parse s)).
+Proof.
+  unfold parse. rewrite parse_with_eq. cbn [comment files]. split; [apply fix_nl_idem|].
+  apply Forall_map. cbn [snd]. apply Forall_forall. intros x _. apply fix_nl_idem.
+Qed.
+
+Lemma parse_wf_archive s : wf_archive (parse s) = true.
+Proof.
+  unfold parse. rewrite parse_with_eq. unfold wf_archive. cbn [comment files].
+  destruct (collect_inv (split_lines s) (split_lines_ok s)) as [Hc Hf].
+  apply andb_true_iff. split.
+  - apply wf_text_iff. split; [apply fix_nl_idem|]. now rewrite needs_quote_fix_nl.
+  - apply forallb_forall. intros x Hx. apply in_map_iff in Hx. destruct Hx as [y [<- Hy]].
+    rewrite Forall_forall in Hf. destruct (Hf y Hy) as [Hn Hq]. cbn [fst snd].
+    apply andb_true_iff. split; [assumption|].
+    apply wf_text_iff. split; [apply fix_nl_idem|]. now rewrite needs_quote_fix_nl.
+Qed.
+
+(* ------------------------------------------------------------------ *)
+(* C03 (2), (1): Parse (Format a) = a for well-formed a                 *)
+
+Definition body (fs : list (bytes * bytes)) : bytes :=
+  concat (map (fun nd => format_marker (fst nd) ++ fix_nl (snd nd)) fs).
+
+Lemma format_eq a : format a = fix_nl (comment a) ++ body (files a).
+Proof. reflexivity. Qed.
+
+Definition wf_entry (nd : bytes * bytes) : bool := wf_name (fst nd) && wf_text (snd nd).
+
+Lemma collect_body fs :
+  forallb wf_entry fs = true ->
+  collect marker_line (split_lines (body fs)) = ([], fs).
+Proof.
+  induction fs as [|[n d] fs IH]; intros H; [reflexivity|].
+  cbn [forallb] in H. apply andb_true_iff in H. destruct H as [Hnd Hfs].
+  unfold wf_entry in Hnd. cbn [fst snd] in Hnd. apply andb_true_iff in Hnd. destruct Hnd as [Hn Hd].
+  apply wf_text_iff in Hd. destruct Hd as [Hfix Hq].
+  unfold body. cbn [map concat fst snd]. fold (body fs). rewrite Hfix, <- app_assoc.
+  assert (Ht : tline (format_marker n)).
+  { apply format_marker_tline. apply wf_name_iff in Hn. tauto. }
+  rewrite split_lines_app by (right; now apply tline_last).
+  rewrite split_lines_tline by assumption. cbn [app].
+  rewrite (collect_cons_mark _ _ n _ (marker_line_format_marker n Hn)).
+  rewrite split_lines_app by (now apply fix_nl_fixed).
+  rewrite collect_app_nomark by (now apply needs_quote_false_iff).
+  rewrite (IH Hfs). cbn [fst snd]. now rewrite app_nil_r, concat_split_lines.
+Qed.
+
+Lemma map_fix_nl_wf fs :
+  forallb wf_entry fs = true -> map (fun nd => (fst nd, fix_nl (snd nd))) fs = fs.
+Proof.
+  induction fs as [|[n d] fs IH]; intros H; [reflexivity|].
+  cbn [forallb] in H. apply andb_true_iff in H. destruct H as [Hnd Hfs].
+  unfold wf_entry in Hnd. apply andb_true_iff in Hnd. destruct Hnd as [_ Hd].
+  apply wf_text_iff in Hd. cbn [snd] in Hd. destruct Hd as [Hfix _].
+  cbn [map fst snd]. now rewrite Hfix, IH.
+Qed.
+
+Lemma parse_format_wf a : wf_archive a = true -> parse (format a) = a.
+Proof.
+  destruct a as [c fs]. unfold wf_archive. cbn [comment files]. intros H.
+  apply andb_true_iff in H. destruct H as [Hc Hfs]. fold wf_entry in Hfs.
+  apply wf_text_iff in Hc. destruct Hc as [Hfix Hq].
+  unfold parse. rewrite parse_with_eq, format_eq. cbn [comment files]. rewrite Hfix.
+  rewrite split_lines_app by (now apply fix_nl_fixed).
+  rewrite collect_app_nomark by (now apply needs_quote_false_iff).
+  rewrite (collect_body fs Hfs). cbn [fst snd].
+  now rewrite app_nil_r, concat_split_lines, Hfix, map_fix_nl_wf.
+Qed.
+
+Lemma parse_format_parse s : parse (format (parse s)) = parse s.
+Proof. apply parse_format_wf. apply parse_wf_archive. Qed.
+
+(* ------------------------------------------------------------------ *)
+(* C03 (5): agreement with the x/tools reference on CR-free input       *)
+
+Definition no_cr (s : bytes) : bool := negb (mem_byte CR s).
+
+Lemma marker_line_ref_no_cr l : ~ In CR l -> marker_line l = ref_marker_line l.
+Proof.
+  intros H. unfold marker_line, ref_marker_line. rewrite strip_cr_id; [reflexivity|].
+  intros E. apply H. apply strip_nl_incl. now apply last_byte_In.
+Qed.
+
+Lemma parse_ref s : no_cr s = true -> parse s = ref_parse s.
+Proof.
+  unfold no_cr. rewrite negb_true_iff, mem_byte_false. intros H.
+  unfold parse, ref_parse, parse_with.
+  rewrite (collect_ext marker_line ref_marker_line); [reflexivity|].
+  intros l Hl. apply marker_line_ref_no_cr. intros Hin. apply H.
+  now apply (split_lines_In_incl s l).
+Qed.
+
+(* ------------------------------------------------------------------ *)
+(* C03 (6): CRLF after a line is treated like LF, lifted to Parse       *)
+
+Definition names (a : archive) : list bytes := map fst (files a).
+
+Lemma collect_replace ml x y ls1 ls2 :
+  ml x = ml y ->
+  map fst (snd (collect ml (ls1 ++ x :: ls2))) = map fst (snd (collect ml (ls1 ++ y :: ls2)))
+  /\ (ml y <> None -> collect ml (ls1 ++ x :: ls2) = collect ml (ls1 ++ y :: ls2)).
+Proof.
+  intros Hxy. induction ls1 as [|l ls1 [IH1 IH2]].
+  - cbn [app]. destruct (ml y) as [n|] eqn:E.
+    + rewrite (collect_cons_mark ml x n ls2) by congruence.
+      rewrite (collect_cons_mark ml y n ls2) by assumption. split; reflexivity.
+    + rewrite (collect_cons_nomark ml x ls2) by congruence.
+      rewrite (collect_cons_nomark ml y ls2) by assumption. split; [reflexivity|congruence].
+  - cbn [app]. destruct (ml l) as [n|] eqn:E.
+    + rewrite !(collect_cons_mark ml l n) by assumption. cbn [snd map fst]. split.
+      * now rewrite IH1.
+      * intros H. now rewrite (IH2 H).
+    + rewrite !(collect_cons_nomark ml l) by assumption. cbn [snd]. split.
+      * exact IH1.
+      * intros H. now rewrite (IH2 H).
+Qed.
+
+Lemma names_parse_with ml d :
+  names (parse_with ml d) = map fst (snd (collect ml (split_lines d))).
+Proof.
+  unfold names. rewrite parse_with_eq. cbn [files]. rewrite map_map. now apply map_ext.
+Qed.
+
+Lemma split_lines_around pre l t post :
+  pre = [] \/ last_byte pre = Some NL -> ~ In NL (l ++ t) ->
+  split_lines (pre ++ l ++ (t ++ [NL]) ++ post)
+  = split_lines pre ++ (l ++ t ++ [NL]) :: split_lines post.
+Proof.
+  intros Hpre Hl. rewrite split_lines_app by assumption. f_equal.
+  replace (l ++ (t ++ [NL]) ++ post) with ((l ++ t) ++ NL :: post)
+    by (now rewrite <- !app_assoc).
+  rewrite split_lines_tline_app by assumption. now rewrite <- app_assoc.
+Qed.
+
+(* The line [l] (without NL, not ending in CR) sits at a line start of the input.
+   Terminating it by CRLF instead of LF never changes the file names or their
+   number; and when the line is a marker line the two archives are equal. *)
+Lemma crlf_like_lf pre l post :
+  pre = [] \/ last_byte pre = Some NL ->
+  ~ In NL l -> last_byte l <> Some CR ->
+  names (parse (pre ++ l ++ [CR; NL] ++ post)) = names (parse (pre ++ l ++ [NL] ++ post))
+  /\ (marker_line (l ++ [NL]) <> None ->
+      parse (pre ++ l ++ [CR; NL] ++ post) = parse (pre ++ l ++ [NL] ++ post)).
+Proof.
+  intros Hpre Hnl Hcr.
+  assert (E1 : split_lines (pre ++ l ++ [CR; NL] ++ post)
+               = split_lines pre ++ (l ++ [CR; NL]) :: split_lines post).
+  { apply (split_lines_around pre l [CR] post Hpre).
+    intros H. apply in_app_or in H. destruct H as [H|[H|[]]]; [now apply Hnl|discriminate]. }
+  assert (E2 : split_lines (pre ++ l ++ [NL] ++ post)
+               = split_lines pre ++ (l ++ [NL]) :: split_lines post).
+  { apply (split_lines_around pre l [] post Hpre). now rewrite app_nil_r. }
+  destruct (collect_replace marker_line (l ++ [CR; NL]) (l ++ [NL])
+              (split_lines pre) (split_lines post) (marker_line_crlf l Hcr)) as [H1 H2].
+  unfold parse. rewrite !names_parse_with, !parse_with_eq, E1, E2. split.
+  - exact H1.
+  - intros Hm. specialize (H2 Hm).
+    apply (f_equal (fun r => {| comment := fix_nl (fst r);
+                                files := map (fun nd => (fst nd, fix_nl (snd nd))) (snd r) |})) in H2.
+    exact H2.
+Qed.
+
+(* the marker case, with the recognised name made explicit *)
+Lemma crlf_marker_like_lf pre l post n :
+  pre = [] \/ last_byte pre = Some NL ->
+  ~ In NL l -> marker_core l = Some n ->
+  marker_line (l ++ [CR; NL]) = Some n /\ marker_line (l ++ [NL]) = Some n /\
+  parse (pre ++ l ++ [CR; NL] ++ post) = parse (pre ++ l ++ [NL] ++ post) /\
+  In n (names (parse (pre ++ l ++ [CR; NL] ++ post))).
+Proof.
+  intros Hpre Hnl Hm.
+  assert (Hcr : last_byte l <> Some CR).
+  { intros E. unfold marker_core in Hm.
+    destruct (has_suffix marker_end l) eqn:Es.
+    - apply has_suffix_iff in Es. destruct Es as [x ->].
+      rewrite last_byte_app in E by apply marker_end_nonempty. now apply marker_end_last_not_cr.
+    - rewrite andb_false_r in Hm. discriminate. }
+  assert (Hlf : marker_line (l ++ [NL]) = Some n).
+  { unfold marker_line. now rewrite strip_nl_snoc, strip_cr_id. }
+  assert (Hcrlf : marker_line (l ++ [CR; NL]) = Some n) by (now rewrite marker_line_crlf).
+  destruct (crlf_like_lf pre l post Hpre Hnl Hcr) as [_ Heq].
+  repeat split; try assumption.
+  - apply Heq. congruence.
+  - unfold parse. rewrite names_parse_with.
+    change (pre ++ l ++ [CR; NL] ++ post) with (pre ++ l ++ ([CR] ++ [NL]) ++ post).
+    rewrite (split_lines_around pre l [CR] post Hpre).
+    + clear Heq. induction (split_lines pre) as [|x ls IH].
+      * cbn [app]. rewrite (collect_cons_mark _ _ n _ Hcrlf). now left.
+      * cbn [app]. destruct (marker_line x) as [m|] eqn:E.
+        -- rewrite (collect_cons_mark _ x m _ E). cbn [snd map fst]. now right.
+        -- rewrite (collect_cons_nomark _ x _ E). exact IH.
+    + intros H. apply in_app_or in H. destruct H as [H|[H|[]]]; [now apply Hnl|discriminate].
 Qed.
